@@ -73,13 +73,13 @@ fn(A + "._close", params={}, model_opts=VIEWS,
    props=("C07", "C16"))
 
 fn(A + "._read_data", params={}, model_opts=VIEWS,
-   requires=[("read.pre.running", "has(self, 'protocol') and value_of(self, 'protocol').g_initiated and not value_of(self, 'protocol').g_eof_fed")],
+   requires=[("read.pre.running", "has(self, 'protocol') and value_of(self, 'protocol').g_initiated and not value_of(self, 'protocol').g_eof_fed"),
+             ("read.pre.timeout", "self.config.read_timeout is None or self.config.read_timeout >= 0")],
    loops={0: {"locals": {"data": "bytes"},
-              "invariant": [("C16.read.inv", "has(self, 'protocol') and value_of(self, 'protocol').g_initiated and implies(value_of(self, 'protocol').g_eof_fed, self.reader.eof and not self.reader.buffered)", "C16")],
-              # C16.read.forward: what was read is handed to the protocol, unchanged
-              "iter_ensures": [("C16.read.forward", "implies(n_after_gap('reads') == 1, trace_any('calls', 'c', c[0] == 'ProtocolPort.handle' and isinstance(c[2], RawData) and c[2].data == after_gap('reads')[0]))", "C16,C01")],
-              # C16.read.eof-fed: when the loop ends because the peer closed, the protocol has been told (RawData(b''))
-              "exit_ensures": [("C16.read.eof-fed", "value_of(self, 'protocol').g_eof_fed", "C16,C04")]}},
+              "invariant": [("C16.read.inv", "has(self, 'protocol') and value_of(self, 'protocol').g_initiated and not value_of(self, 'protocol').g_eof_fed", "C16")],
+              # C16.read.forward: what was read is handed to the protocol, unchanged -- the empty
+              # end-of-stream chunk included (C16.read.eof-fed: the protocol is told about the EOF)
+              "iter_ensures": [("C16.read.forward", "implies(n_after_gap('reads') == 1, trace_any('calls', 'c', c[0] == 'ProtocolPort.handle' and isinstance(c[2], RawData) and c[2].data == after_gap('reads')[0]))", "C16,C01")]}},
    ensures=[
        # C07.finally: whatever ended the loop, the protocol is told last that the connection is gone
        ("C07.read.closed-last", "n_after_gap('calls') >= 1 and after_gap('calls')[-1][0] == 'ProtocolPort.handle' and isinstance(after_gap('calls')[-1][2], Closed)", "C07,C16"),
@@ -119,7 +119,8 @@ RUN_CLAUSES = lambda single: [
 ]
 
 fn(A + ".run", params={}, model_opts=VIEWS,
-   requires=[("run.pre.once", "not has(self, 'protocol') and not has(self, '_task_group') and self.idle_task.g_live == 0")],
+   requires=[("run.pre.once", "not has(self, 'protocol') and not has(self, '_task_group') and self.idle_task.g_live == 0"),
+             ("run.pre.timeout", "self.config.read_timeout is None or self.config.read_timeout >= 0")],
    ensures=RUN_CLAUSES("AsyncioSingleTask") + [
        # C13.alpn: the protocol is chosen from what TLS negotiated; cleartext connections are HTTP/1.1 openings
        ("C13.alpn.server", "implies(call_index('ProtocolWrapper.__init__') >= 0, "
